@@ -70,7 +70,9 @@ func viaRegister(f func() registerer) func() []Svc {
 
 func ServerTable() []ServerEntry {
 	return []ServerEntry{
-		{"accesspb.ModelServer", func() []Svc { return []Svc{{&traits.AccessApi_ServiceDesc, accesspb.NewModelServer(accesspb.NewModel())}} }},
+		{"accesspb.ModelServer", func() []Svc {
+			return []Svc{{&traits.AccessApi_ServiceDesc, accesspb.NewModelServer(accesspb.NewModel())}}
+		}},
 		{"airqualitysensorpb.ModelServer", viaRegister(func() registerer { return airqualitysensorpb.NewModelServer(airqualitysensorpb.NewModel()) })},
 		{"airtemperaturepb.ModelServer", viaRegister(func() registerer { return airtemperaturepb.NewModelServer(airtemperaturepb.NewModel()) })},
 		{"airtemperaturepb.MemoryDevice", viaRegister(func() registerer { return airtemperaturepb.NewMemoryDevice() })},
@@ -82,14 +84,18 @@ func ServerTable() []ServerEntry {
 		{"enterleavesensorpb.ModelServer", viaRegister(func() registerer { return enterleavesensorpb.NewModelServer(enterleavesensorpb.NewModel()) })},
 		{"fanspeedpb.ModelServer", viaRegister(func() registerer { return fanspeedpb.NewModelServer(fanspeedpb.NewModel()) })},
 		{"hailpb.ModelServer", viaRegister(func() registerer { return hailpb.NewModelServer(hailpb.NewModel()) })},
-		{"lightpb.ModelServer", viaRegister(func() registerer { return lightpb.NewModelServer(lightpb.NewModel(lightpb.WithPreset(20, &traits.LightPreset{Name: "dim", Title: "Dim"}), lightpb.WithPreset(90, &traits.LightPreset{Name: "bright", Title: "Bright"}))) })},
+		{"lightpb.ModelServer", viaRegister(func() registerer {
+			return lightpb.NewModelServer(lightpb.NewModel(lightpb.WithPreset(20, &traits.LightPreset{Name: "dim", Title: "Dim"}), lightpb.WithPreset(90, &traits.LightPreset{Name: "bright", Title: "Bright"})))
+		})},
 		{"metadatapb.ModelServer", viaRegister(func() registerer { return metadatapb.NewModelServer(metadatapb.NewModel()) })},
 		{"meterpb.ModelServer", func() []Svc { return []Svc{{&traits.MeterApi_ServiceDesc, meterpb.NewModelServer(meterpb.NewModel())}} }},
 		{"modepb.ModelServer", viaRegister(func() registerer { return modepb.NewModelServer(modepb.NewModel()) })},
 		{"occupancysensorpb.ModelServer", viaRegister(func() registerer { return occupancysensorpb.NewModelServer(occupancysensorpb.NewModel()) })},
 		{"onoffpb.ModelServer", viaRegister(func() registerer { return onoffpb.NewModelServer(onoffpb.NewModel()) })},
 		{"openclosepb.ModelServer", viaRegister(func() registerer { return openclosepb.NewModelServer(openclosepb.NewModel()) })},
-		{"parentpb.ModelServer", func() []Svc { return []Svc{{&traits.ParentApi_ServiceDesc, parentpb.NewModelServer(parentpb.NewModel())}} }},
+		{"parentpb.ModelServer", func() []Svc {
+			return []Svc{{&traits.ParentApi_ServiceDesc, parentpb.NewModelServer(parentpb.NewModel())}}
+		}},
 		{"publicationpb.ModelServer", viaRegister(func() registerer { return publicationpb.NewModelServer(publicationpb.NewModel()) })},
 		{"speakerpb.MemoryDevice", viaRegister(func() registerer { return speakerpb.NewMemoryDevice(&types.AudioLevel{Gain: 10}) })},
 		{"vendingpb.ModelServer", viaRegister(func() registerer { return vendingpb.NewModelServer(vendingpb.NewModel()) })},
@@ -354,7 +360,6 @@ func (p *IDPool) Apply(rng *vk.Rand, m protoreflect.Message, depth int) {
 		}
 	}
 }
-
 
 // LazyStream fills the request when the handler asks for it (the request type is only known then).
 type LazyStream struct {
